@@ -96,6 +96,7 @@ def big_moduli():
         out.append(int(c.order))
     out += [2 ** 255 - 19, 2 ** 127 - 1, 2 ** 521 - 1, 2 ** 64, 2 ** 64 + 13,
             10 ** 30 + 57, 3 ** 200, 2 ** 600 + 187]
+    out += proven_huge_primes() + [1 << 1100, (1 << 2048) + 1]
     return out
 
 
@@ -170,17 +171,65 @@ BIG_1MOD8 = [
 ]
 
 
+M1279 = (1 << 1279) - 1
+_PROVEN = None
+
+
+def proven_huge_primes():
+    """primes above 1024 bits in every class mod 8, each with a primality
+    PROOF that is re-checked on every run (no probabilistic test, no table to
+    trust): 2^1279-1 by Lucas-Lehmer; 2*k*M+1 by Pocklington with the proven
+    factor M = 2^1279-1 > sqrt(p) and base 2; 553*2^1100+1 by Proth"""
+    global _PROVEN
+    if _PROVEN is not None:
+        return _PROVEN
+    s4 = 4
+    for _ in range(1279 - 2):
+        s4 = (s4 * s4 - 2) % M1279
+    if s4 != 0:
+        raise common.OracleBroken("Lucas-Lehmer failed for 2^1279-1")
+    out = [M1279]
+    for k, cls in ((1247, 3), (1512, 1), (2154, 5)):
+        q = 2 * k * M1279 + 1
+        if q % 8 != cls or pow(2, q - 1, q) != 1 or \
+                rn.egcd_gcd(pow(2, (q - 1) // M1279, q) - 1, q) != 1:
+            raise common.OracleBroken("Pocklington failed for k=%d" % k)
+        out.append(q)
+    q = 553 * (1 << 1100) + 1
+    if not any(pow(a, (q - 1) // 2, q) == q - 1 for a in (3, 5, 7)):
+        raise common.OracleBroken("Proth failed")
+    out.append(q)
+    _PROVEN = out
+    return out
+
+
+def two_power_residues(p, few=False):
+    """2^k and 3*2^k: arguments with a long run of trailing zero bits"""
+    ks = [0, 2, 63, 64, 65, 66, 128, 130] if few else \
+        sorted(set(range(0, 72)) | {96, 127, 128, 129, 130, 191, 192, 255, 256,
+                                    257, 258, 512, 1024, 1025, 1026})
+    out = []
+    for k in ks:
+        if (1 << k) < p:
+            out += [1 << k, (3 << k) % p]
+    return out
+
+
 def shard_sqrt_big(arg):
     primes = arg
     sh = Shard()
     for p in primes:
         if not rn.is_prime_det(p) and p < 3 * 10 ** 24:
             continue
+        huge = p.bit_length() > 1024
         cands = [0, 1, 2, 3, 4, 5, 6, 7, 9, 10, 11, 13, p - 1, p - 2, p - 4,
                  p // 2, p // 2 + 1]
+        if huge and p % 8 == 1:
+            cands = [0, 1, 2, 3, 4, 5, p - 1]     # slow class: small set
         for b in (2, 3, 0xdeadbeef, p - 5, int("55" * 70, 16) % p):
             cands.append(b * b % p)
             cands.append((b * b * 3) % p)
+        cands += two_power_residues(p, few=(p % 8 == 1 and p.bit_length() > 300))
         for a in cands:
             sh.n += 1
             sh.nt += 1
@@ -232,7 +281,11 @@ def shard_jac_big(arg):
     comps = []
     for i in range(0, len(pr) - 3, 17):
         comps.append(([(pr[i], 1), (pr[i + 1], 2), (pr[i + 3], 1)]))
+    for P in proven_huge_primes():
+        comps.append([(P, 1)])
+        comps.append([(5, 1), (P, 1)])
     for P in big:
+        comps.append([(P, 1)])
         comps.append([(3, 1), (P, 1)])
         comps.append([(P, 2)])
         comps.append([(pr[50], 1), (P, 1), (big[0] if P != big[0] else big[1], 1)])
@@ -240,8 +293,9 @@ def shard_jac_big(arg):
         n = 1
         for q, e in fac:
             n *= q ** e
-        for a in (0, 1, 2, 3, 5, -1, n - 1, n + 2, 2 ** 200 + 1, fac[0][0],
-                  0xabcdef123456789, 7 ** 77):
+        for a in [0, 1, 2, 3, 5, -1, n - 1, n + 2, 2 ** 200 + 1, fac[0][0],
+                  0xabcdef123456789, 7 ** 77] + two_power_residues(1 << 1100) \
+                + [-(1 << 64), -(1 << 66), 5 << 128]:
             sh.n += 1
             sh.nt += 1
             sh.hist["jacobi-big"] += 1
@@ -294,7 +348,7 @@ def main(ctx):
             jobs.append((shard_sqrt, "sqrt-all-primes-all-residues", ch))
     bigp = [int(c.curve.p()) for c in catalog.real_curves()] + \
         [int(c.order) for c in catalog.real_curves() if
-         c.curve.cofactor() == 1] + BIG_1MOD8
+         c.curve.cofactor() == 1] + BIG_1MOD8 + proven_huge_primes()
     for ch in common.chunks(bigp, ctx.jobs):
         jobs.append((shard_sqrt_big, "sqrt-production", ch))
     odd = list(range(3, ctx.pick(3001, 6001) + 1, 2))
@@ -310,8 +364,10 @@ def main(ctx):
         "Python 3.7): all m in [1,%d] x all a in [-2m,3m] coprime to m, plus "
         "structured a on curve primes/orders and other large moduli; "
         "square_root_mod_prime: every odd prime < %d x every residue, "
-        "structured residues on field primes/orders/known primes of each "
-        "class mod 8, SquareRootError iff Euler's criterion says non-residue; "
+        "structured residues (incl. 2^k and 3*2^k, k up to 1026) on field "
+        "primes/orders/known primes of each class mod 8 and on five primes "
+        "of 1100..1292 bits covering every class mod 8 whose primality "
+        "proofs (Lucas-Lehmer, Pocklington, Proth) are re-checked each run, SquareRootError iff Euler's criterion says non-residue; "
         "jacobi: every odd n in [3,%d] x a in [-n,2n] against the product of "
         "Legendre symbols over a trial-division factorisation. Non-trivial = "
         "a not in {0,1} mod m." % (ms[-1], ctx.pick(5000, 12000), odd[-1]))
